@@ -224,7 +224,7 @@ func defaultSymbolEdges() []string {
 	return []string{all[0], all[len(all)/2], all[len(all)-1]}
 }
 
-var pStrings = []string{"", "a", "file1", "/a/file1.txt", "read", "é", "hello world", "x=1;y", "a,b", "50% off", "100%d/%s", `^abc\s+def$`, `\d+\.\d+`}
+var pStrings = []string{"", "a", "file1", "/a/file1.txt", "read", "é", "hello world", "x=1;y", "a,b", "50% off", "100%d/%s", `^abc\s+def$`, `\d+\.\d+`, `C:\`, `caf\é`, `\`}
 
 func (g *textGen) atomTerm(allowVar bool) Term {
 	r := g.r
